@@ -197,3 +197,19 @@ Definition spectrum_interp1 (xp : list R) (erows arows : list (list (option R)))
 Definition energy_interp1 (xp : list R) (erows : list (list (option R))) (x : R)
            (period : option R) (nearest : bool) (ext : R) (np : nat) : list R :=
   map (fillna ext) (interp_axis1 xp erows x period nearest np).
+
+(* ---------------------------------------------------------------------------------- *)
+(* interpolate_dataset_grid for a variable with dims (x, y): the coordinates are       *)
+(* interpolated one after the other; the second step sees ALL targets of the first as *)
+(* passive positions (so its NaN mask looks across them)                              *)
+(* ---------------------------------------------------------------------------------- *)
+
+(* R[a][k] -> C[k][a] *)
+Definition columns (mat : list (list (option R))) (ny : nat) : list (list (option R)) :=
+  map (fun k => map (fun r => nth k r None) mat) (seq 0 ny).
+
+(* m[i][k] on grid (xp, yp); result[b][a] = value at (xs[a], ys[b]) *)
+Definition interp_grid2 (xp yp : list R) (m : list (list (option R))) (xs ys : list R)
+           (nearest : bool) : list (list (option R)) :=
+  let r := interp_axis xp m xs None nearest (length yp) in
+  interp_axis yp (columns r (length yp)) ys None nearest (length xs).
